@@ -19,6 +19,11 @@
 (*    to the next; the first call of every operation goes to the group's   *)
 (*    original node again (that is what the code does).                    *)
 (*    A select then drains the streams (Drain).                            *)
+(*    A statement may name several measurement sources of the one db/rp   *)
+(*    (FROM m, m2; subqueries): the shards are mapped ONCE per db/rp (the  *)
+(*    "source already mapped" test of mapShards) and every operation runs  *)
+(*    once per measurement over the same groups: each shard is read once   *)
+(*    per source.                                                          *)
 (*  meta: the all-nodes fan-out of MetaExecutor.ExecuteQuery (TagKeys,     *)
 (*    TagValues, MeasurementNames, sketches): one call per remote node, no *)
 (*    retry, results are set-united.                                       *)
@@ -58,12 +63,13 @@ CONSTANTS Nodes,         \* data nodes (strings)
           CallFaults,    \* remote fault classes explored for kinds "cost" and "meta"
           LocalFaults,   \* fault classes of the coordinator's own store: subset of {"up","errReply"}
           Kinds,         \* subset of {"select","query","cost","meta"}
+          Sources,       \* numbers of measurement sources (of the one db/rp) a statement may have, e.g. {1, 2}
           MinRF, MaxRF,  \* bounds on the number of owners of a shard
           Dev            \* enabled deviations: subset of {"F6","F7","F8","MTL"}
 
 Shards == 1..NShards
 
-VARIABLES owners, coord, fault, kind,   \* the scenario
+VARIABLES owners, coord, fault, kind, nsrc,   \* the scenario (nsrc = measurement sources of the statement)
           phase,      \* "map" | "op" | "stream" | "meta" | "done"
           assign,     \* Shards -> Nodes: the mapping made by Map
           ops,        \* operations still to run (head = current)
@@ -77,15 +83,16 @@ VARIABLES owners, coord, fault, kind,   \* the scenario
           metaCalled, metaOK,   \* all-nodes fan-out: nodes called / nodes that answered
           reads,      \* history: Shards -> number of reads that contribute to the result
           servers,    \* history: Shards -> nodes whose read contributes
+          acc,        \* history: <<source no, node, shards>> read by the result operations finished so far
           swallowed,  \* history: <<node, op>> error replies that were taken for success
           mtLost,     \* history: a MapType failure was dropped (the interface has no error)
           ciStalled,  \* history: a CreateIterator call waited for its whole deadline (stalled owner)
           outcome,    \* "none" | "success" | "error"
           taint       \* deviations taken on this behaviour
 
-scen == <<owners, coord, fault, kind>>
-vars == <<owners, coord, fault, kind, phase, assign, ops, opOn, gst, plan, issued, failed, dirty, rounds,
-          metaCalled, metaOK, reads, servers, swallowed, mtLost, ciStalled, outcome, taint>>
+scen == <<owners, coord, fault, kind, nsrc>>
+vars == <<owners, coord, fault, kind, nsrc, phase, assign, ops, opOn, gst, plan, issued, failed, dirty, rounds,
+          metaCalled, metaOK, reads, servers, acc, swallowed, mtLost, ciStalled, outcome, taint>>
 
 -----------------------------------------------------------------------------
 AllFaults == {"up", "dialFail", "errReply", "stall", "cutMid", "cutFrame", "stallMid"}
@@ -93,8 +100,13 @@ OwnerSets == {S \in SUBSET Nodes : Cardinality(S) >= MinRF /\ Cardinality(S) <= 
 
 \* "select": the three operations of a select driven one by one; "query": what query.Select does for
 \* "SELECT value FROM m" (no wildcard: no FieldDimensions)
-OpsOf(k) == IF k = "select" THEN <<"FD", "MT", "CI">> ELSE IF k = "query" THEN <<"MT", "CI">>
-            ELSE IF k = "cost" THEN <<"IC">> ELSE <<>>
+\* with n measurement sources: "select" runs the three operations per measurement, the engine ("query") maps
+\* the type of every source first and then creates one iterator per source, "cost" asks once per source
+RECURSIVE Rep(_, _)
+Rep(sq, n) == IF n = 0 THEN <<>> ELSE sq \o Rep(sq, n - 1)
+OpsOf(k, n) == IF k = "select" THEN Rep(<<"FD", "MT", "CI">>, n)
+               ELSE IF k = "query" THEN Rep(<<"MT">>, n) \o Rep(<<"CI">>, n)
+               ELSE IF k = "cost" THEN Rep(<<"IC">>, n) ELSE <<>>
 Streams(k) == k \in {"select", "query"}
 
 NoPlan == [n \in Nodes |-> {}]
@@ -134,6 +146,7 @@ Lower(S, k) == {s \in S : Cardinality({t \in S : t < s}) < k}
 -----------------------------------------------------------------------------
 Init ==
   /\ kind \in Kinds
+  /\ nsrc \in Sources /\ (kind = "meta" => nsrc = 1)
   /\ coord \in Coords
   /\ owners \in [Shards -> OwnerSets]
   /\ \E fl \in LocalFaults, fr \in [Nodes \ {coord} -> (IF Streams(kind) THEN StreamFaults ELSE CallFaults)] :
@@ -142,13 +155,13 @@ Init ==
   /\ \A n \in Nodes \ {coord} : (kind # "meta" /\ \A s \in Shards : n \notin owners[s]) => fault[n] = "up"
   /\ phase = "map"
   /\ assign = [s \in Shards |-> coord]
-  /\ ops = OpsOf(kind) /\ opOn = FALSE
+  /\ ops = OpsOf(kind, nsrc) /\ opOn = FALSE
   /\ gst = [n \in Nodes |-> "none"]
   /\ plan = [n \in Nodes |-> NoPlan]
   /\ issued = [n \in Nodes |-> {}] /\ failed = [n \in Nodes |-> {}]
   /\ dirty = [n \in Nodes |-> {}] /\ rounds = [n \in Nodes |-> 0]
   /\ metaCalled = {} /\ metaOK = {}
-  /\ reads = [s \in Shards |-> 0] /\ servers = [s \in Shards |-> {}]
+  /\ reads = [s \in Shards |-> 0] /\ servers = [s \in Shards |-> {}] /\ acc = {}
   /\ swallowed = {} /\ mtLost = FALSE /\ ciStalled = FALSE /\ outcome = "none" /\ taint = {}
 
 \* ---- select / cost -------------------------------------------------------
@@ -156,7 +169,7 @@ Map ==
   /\ phase = "map" /\ kind \in {"select", "query", "cost"}
   /\ \E a \in [Shards -> Nodes] : ValidAssign(a) /\ assign' = a
   /\ phase' = "op"
-  /\ UNCHANGED <<scen, ops, opOn, gst, plan, issued, failed, dirty, rounds, metaCalled, metaOK, reads, servers,
+  /\ UNCHANGED <<scen, ops, opOn, gst, plan, issued, failed, dirty, rounds, metaCalled, metaOK, reads, servers, acc,
                  swallowed, mtLost, ciStalled, outcome, taint>>
 
 OpStart ==
@@ -167,7 +180,7 @@ OpStart ==
   /\ plan' = [g \in Nodes |-> IF g \in Groups THEN [n \in Nodes |-> IF n = g THEN GShards(g) ELSE {}] ELSE NoPlan]
   /\ issued' = [n \in Nodes |-> {}] /\ failed' = [n \in Nodes |-> {}]
   /\ rounds' = [n \in Nodes |-> 0]
-  /\ UNCHANGED <<scen, phase, assign, ops, dirty, metaCalled, metaOK, reads, servers, swallowed, mtLost, ciStalled, outcome, taint>>
+  /\ UNCHANGED <<scen, phase, assign, ops, dirty, metaCalled, metaOK, reads, servers, acc, swallowed, mtLost, ciStalled, outcome, taint>>
 
 PlanNodes(g) == {n \in Nodes : plan[g][n] # {}}
 
@@ -178,8 +191,9 @@ Call(g, n) ==
   /\ failed' = IF CallFails(n, Head(ops)) THEN [failed EXCEPT ![g] = @ \cup {n}] ELSE failed
   /\ swallowed' = IF fault[n] = "errReply" /\ Head(ops) = "CI" /\ ~CallFails(n, "CI")
                   THEN swallowed \cup {<<n, "CI">>} ELSE swallowed
-  /\ ciStalled' = (ciStalled \/ (Head(ops) = "CI" /\ fault[n] = "stall"))
-  /\ UNCHANGED <<scen, phase, assign, ops, opOn, gst, plan, dirty, rounds, metaCalled, metaOK, reads, servers,
+  \* ... or any later request, while the streams of an earlier source are already open (acc # {})
+  /\ ciStalled' = (ciStalled \/ (fault[n] = "stall" /\ (Head(ops) = "CI" \/ acc # {})))
+  /\ UNCHANGED <<scen, phase, assign, ops, opOn, gst, plan, dirty, rounds, metaCalled, metaOK, reads, servers, acc,
                  mtLost, outcome, taint>>
 
 \* all calls of the round have returned
@@ -200,12 +214,14 @@ RoundEnd(g) ==
                   /\ issued' = [issued EXCEPT ![g] = {}]
                   /\ failed' = [failed EXCEPT ![g] = {}]
                   /\ UNCHANGED gst
-  /\ UNCHANGED <<scen, phase, assign, ops, opOn, metaCalled, metaOK, reads, servers, swallowed, mtLost, ciStalled, outcome, taint>>
+  /\ UNCHANGED <<scen, phase, assign, ops, opOn, metaCalled, metaOK, reads, servers, acc, swallowed, mtLost, ciStalled, outcome, taint>>
 
 \* what the final plans of an operation read: the local shards plus every planned remote request
-Contribs == {<<coord, LocalShards>>} \cup {<<n, plan[g][n]>> : g \in Groups, n \in Nodes}
-CountReads(C) == [s \in Shards |-> Cardinality({c \in C : s \in c[2]})]
-WhoReads(C) == [s \in Shards |-> {c[1] : c \in {x \in C : s \in x[2]}}]
+\* result operations (CreateIterator, IteratorCost) run once per source; their reads are accumulated in acc
+SrcNo == Cardinality({a[1] : a \in acc}) + 1
+Contribs == {c \in ({<<SrcNo, coord, LocalShards>>} \cup {<<SrcNo, n, plan[g][n]>> : g \in Groups, n \in Nodes}) : c[3] # {}}
+CountReads(C) == [s \in Shards |-> Cardinality({c \in C : s \in c[3]})]
+WhoReads(C) == [s \in Shards |-> {c[2] : c \in {x \in C : s \in x[3]}}]
 
 OpEnd ==
   /\ phase = "op" /\ opOn /\ \A g \in Groups : gst[g] \in {"ok", "fail"}
@@ -218,56 +234,58 @@ OpEnd ==
      /\ mtLost' = (mtLost \/ (o = "MT" /\ groupFail))
      /\ opOn' = FALSE
      /\ IF err \/ (noType /\ "MTL" \notin Dev)
-        THEN /\ outcome' = "error" /\ phase' = "done" /\ UNCHANGED <<ops, reads, servers, taint>>
+        THEN /\ outcome' = "error" /\ phase' = "done" /\ UNCHANGED <<ops, reads, servers, acc, taint>>
         ELSE IF noType
         THEN /\ outcome' = "success" /\ phase' = "done" /\ taint' = taint \cup {"MTL"}   \* empty result
-             /\ UNCHANGED <<ops, reads, servers>>
-        ELSE IF Len(ops) > 1
-        THEN /\ ops' = Tail(ops) /\ UNCHANGED <<outcome, phase, reads, servers, taint>>
-        ELSE IF Streams(kind)
-        THEN /\ phase' = "stream" /\ UNCHANGED <<ops, outcome, reads, servers, taint>>
-        ELSE \* cost: the sum of the replies is the result
-             /\ reads' = CountReads(Contribs) /\ servers' = WhoReads(Contribs)
-             /\ outcome' = "success" /\ phase' = "done" /\ UNCHANGED <<ops, taint>>
+             /\ UNCHANGED <<ops, reads, servers, acc>>
+        ELSE LET acc2 == IF o \in {"CI", "IC"} THEN acc \cup Contribs ELSE acc IN
+             /\ acc' = acc2
+             /\ IF Len(ops) > 1
+                THEN /\ ops' = Tail(ops) /\ UNCHANGED <<outcome, phase, reads, servers, taint>>
+                ELSE IF Streams(kind)
+                THEN /\ phase' = "stream" /\ UNCHANGED <<ops, outcome, reads, servers, taint>>
+                ELSE \* cost: the sum of the replies is the result
+                     /\ reads' = CountReads(acc2) /\ servers' = WhoReads(acc2)
+                     /\ outcome' = "success" /\ phase' = "done" /\ UNCHANGED <<ops, taint>>
   /\ UNCHANGED <<scen, assign, gst, plan, issued, failed, dirty, rounds, metaCalled, metaOK, swallowed, ciStalled>>
 
-\* Draining the merged iterator.  A stream cut at a frame boundary delivered k < all of its points.
+\* Draining the merged iterators of all sources.  A stream cut at a frame boundary delivered k < all of its points.
 Drain ==
   /\ phase = "stream"
-  /\ LET C == {c \in Contribs : c[2] # {}}
-         cutF == {c \in C : fault[c[1]] = "cutFrame"}
-         errR == {c \in C : fault[c[1]] = "errReply"}      \* only with F6: the reply was taken for an empty stream
-         bad == \/ \E c \in C : fault[c[1]] \in {"cutMid", "stallMid"}
+  /\ LET C == acc
+         cutF == {c \in C : fault[c[2]] = "cutFrame"}
+         errR == {c \in C : fault[c[2]] = "errReply"}      \* only with F6: the reply was taken for an empty stream
+         bad == \/ \E c \in C : fault[c[2]] \in {"cutMid", "stallMid"}
                 \/ cutF # {} /\ "F7" \notin Dev
          \* The read deadline set for the reply header stays on the connection (shard-reader-timeout covers
          \* the whole stream): while a stalled owner used up its deadline, the deadline of a stream opened
          \* before may have passed as well - the statement fails with a timeout.
-         late == ciStalled /\ \E c \in C : c[1] # coord IN
+         late == ciStalled /\ \E c \in C : c[2] # coord IN
      IF bad
      THEN /\ outcome' = "error" /\ UNCHANGED <<reads, servers, taint>>
      ELSE \/ /\ late /\ outcome' = "error" /\ UNCHANGED <<reads, servers, taint>>
           \/ /\ \E k \in [cutF -> 0..NShards] :
-                   /\ \A c \in cutF : k[c] < Cardinality(c[2])
-                   /\ LET D == {IF c \in cutF THEN <<c[1], Lower(c[2], k[c])>>
-                                ELSE IF c \in errR THEN <<c[1], {}>> ELSE c : c \in C} IN
+                   /\ \A c \in cutF : k[c] < Cardinality(c[3])
+                   /\ LET D == {IF c \in cutF THEN <<c[1], c[2], Lower(c[3], k[c])>>
+                                ELSE IF c \in errR THEN <<c[1], c[2], {}>> ELSE c : c \in C} IN
                       /\ reads' = CountReads(D) /\ servers' = WhoReads(D)
              /\ outcome' = "success"
              /\ taint' = taint \cup (IF cutF # {} THEN {"F7"} ELSE {}) \cup (IF errR # {} THEN {"F6"} ELSE {})
   /\ phase' = "done"
-  /\ UNCHANGED <<scen, assign, ops, opOn, gst, plan, issued, failed, dirty, rounds, metaCalled, metaOK, swallowed, mtLost, ciStalled>>
+  /\ UNCHANGED <<scen, assign, ops, opOn, gst, plan, issued, failed, dirty, rounds, metaCalled, metaOK, acc, swallowed, mtLost, ciStalled>>
 
 \* ---- all-nodes metadata fan-out -------------------------------------------
 MetaStart ==
   /\ phase = "map" /\ kind = "meta"
   /\ phase' = "meta"
-  /\ UNCHANGED <<scen, assign, ops, opOn, gst, plan, issued, failed, dirty, rounds, metaCalled, metaOK, reads, servers,
+  /\ UNCHANGED <<scen, assign, ops, opOn, gst, plan, issued, failed, dirty, rounds, metaCalled, metaOK, reads, servers, acc,
                  swallowed, mtLost, ciStalled, outcome, taint>>
 
 MetaCall(n) ==
   /\ phase = "meta" /\ n \in Nodes \ {coord} /\ n \notin metaCalled
   /\ metaCalled' = metaCalled \cup {n}
   /\ metaOK' = IF CallFails(n, "MQ") THEN metaOK ELSE metaOK \cup {n}
-  /\ UNCHANGED <<scen, phase, assign, ops, opOn, gst, plan, issued, failed, dirty, rounds, reads, servers,
+  /\ UNCHANGED <<scen, phase, assign, ops, opOn, gst, plan, issued, failed, dirty, rounds, reads, servers, acc,
                  swallowed, mtLost, ciStalled, outcome, taint>>
 
 MetaFinish ==
@@ -283,7 +301,7 @@ MetaFinish ==
         ELSE /\ outcome' = IF covered = Shards THEN "success" ELSE "error"
              /\ UNCHANGED taint
   /\ phase' = "done"
-  /\ UNCHANGED <<scen, assign, ops, opOn, gst, plan, issued, failed, dirty, rounds, metaCalled, metaOK, swallowed, mtLost, ciStalled>>
+  /\ UNCHANGED <<scen, assign, ops, opOn, gst, plan, issued, failed, dirty, rounds, metaCalled, metaOK, acc, swallowed, mtLost, ciStalled>>
 
 -----------------------------------------------------------------------------
 Next ==
@@ -309,18 +327,19 @@ TypeOK ==
 \* on success every shard is read exactly once, from one live owner
 C05_ExactlyOnce ==
   (outcome = "success" /\ taint = {}) =>
-     \A s \in Shards : /\ reads[s] = 1
+     \A s \in Shards : /\ reads[s] = nsrc
                        /\ servers[s] # {} /\ servers[s] \subseteq {n \in owners[s] : Live(n)}
-                       /\ (kind # "meta" => Cardinality(servers[s]) = 1)
+                       \* once per measurement source, by one node
+                       /\ (kind # "meta" => \A k \in 1..nsrc : Cardinality({a \in acc : a[1] = k /\ s \in a[3]}) = 1)
 
 \* a shard none of whose owners can serve makes the query fail
 Unservable == \E s \in Shards : \A n \in owners[s] : ~Live(n)
 C05_ErrorIfUnservable == (Done /\ Unservable /\ taint = {}) => outcome = "error"
 
 \* success is never partial (also: never double)
-C05_NeverSilentlyPartial == (outcome = "success" /\ taint = {}) => \A s \in Shards : reads[s] >= 1
-C05_NeverSilentlyPartialStrict == outcome = "success" => \A s \in Shards : reads[s] = 1
-C05_NeverTwice == outcome = "success" => \A s \in Shards : reads[s] <= 1
+C05_NeverSilentlyPartial == (outcome = "success" /\ taint = {}) => \A s \in Shards : reads[s] >= nsrc
+C05_NeverSilentlyPartialStrict == outcome = "success" => \A s \in Shards : reads[s] = nsrc
+C05_NeverTwice == outcome = "success" => \A s \in Shards : reads[s] <= nsrc
 
 \* an error reply is never taken for a result
 C05_ErrorReplySurfaces == taint = {} => swallowed = {}
